@@ -38,8 +38,8 @@ fn file_info(h: u32, first: u32, size: u32, offset: u32, cur: (u32, u32), mode: 
         mode,
         entry: DirEntry {
             name: ShortFileName { contents: *b"F       DAT" },
-            mtime: fixed_timestamp(),
-            ctime: fixed_timestamp(),
+            mtime: old_timestamp(),
+            ctime: old_timestamp(),
             attributes: Attributes::create_from_fat(0x20),
             cluster: ClusterId(first),
             size,
@@ -48,6 +48,11 @@ fn file_info(h: u32, first: u32, size: u32, offset: u32, cur: (u32, u32), mode: 
         },
         dirty: false,
     }
+}
+
+/// timestamp of files that exist before the call (differs from the harness clock)
+fn old_timestamp() -> crate::filesystem::Timestamp {
+    crate::filesystem::Timestamp { year_since_1970: 40, zero_indexed_month: 0, zero_indexed_day: 0, hours: 1, minutes: 2, seconds: 4 }
 }
 
 fn vm_with(blocks: [Block; G16A_N], files: &[FileInfo]) -> Vm {
@@ -333,6 +338,11 @@ fn write_case(fat: [u16; 4], first: u32, size: u32, offset: u32, cursor: (u32, u
     let _ = root0;
     assert!(data.open_files[1].current_offset == 0 && data.open_files[1].entry.size == 0 && data.open_files[1].entry.cluster.0 == 0, "file.isolation: another open file changed");
     assert!(fi.dirty || len == 0, "file.write: file not marked dirty after a write (flush would skip the directory entry)");
+    if r.is_ok() {
+        assert!(fi.entry.mtime == fixed_timestamp(), "file.times: modification time != clock value at the write");
+        assert!(fi.entry.ctime == old_timestamp(), "file.times: creation time changed by a write");
+        assert!(fi.entry.attributes.is_archive(), "file.times: archive attribute not set by a write");
+    }
     // cursor cache
     let cc = fi.current_cluster;
     assert!(cc.0 % 512 == 0, "file.cursor: cached cluster offset not cluster aligned");
